@@ -934,3 +934,16 @@ def gen_slv_acc(rng, tier):
              fnum(h_start)] + [fnum(x) for x in k1] + [fnum(x) for x in k2] + [fnum(x) for x in a0]
         out.append(" ".join(t))
     return out
+
+
+# spmap L reorder <mech>: vmap = (name, position in the species listing), in listing order
+def gen_spmap(rng, tier):
+    out = []
+    for k in range(vol(tier, 400, 8000)):
+        nspec, vmap, rxns = rand_mech(rng, malformed=(k % 25 == 7), max_rxn=6)
+        names = [nm for nm, _ in vmap]
+        rng.shuffle(names)
+        listing = [(nm, i) for i, nm in enumerate(names)]
+        t = [rng.choice([0, 0, 2, 3]), rng.choice([0, 1, 1])] + mech_tokens(listing, rxns)
+        out.append("spmap " + " ".join(map(str, t)))
+    return out
